@@ -118,8 +118,9 @@ type wire struct {
 	body     []byte
 	csHeader string
 	hasCS    bool
-	reqURI   string // X-Request-Uri ("" = not sent)
-	chunked  bool   // body of undeclared length (chunked upload): ContentLength -1, opaque reader
+	reqURI   string     // X-Request-Uri ("" = not sent)
+	chunked  bool       // body of undeclared length (chunked upload): ContentLength -1, opaque reader
+	fault    *bodyFault // what the body reader does while it is read (fault_test.go); nil = plain in-memory body
 }
 
 // opaqueReader hides the concrete reader type from net/http, so that the request's length stays
@@ -262,6 +263,10 @@ type csPlan struct {
 	chunked  bool   // the body travels with undeclared length (ContentLength -1)
 	hb       hbPlan // how the protected handler treats the body (handler_test.go)
 	hdrForm  int    // layout of the X-Content-Security header (hf*)
+	bf       bfPlan // faults of the body reader (fault_test.go); only drawn by the scenarios that judge them
+	sess     int    // 1 + index of the session whose secret blob the request carries (0 = a secret of its own)
+	variant  int    // session member variant (sv*)
+	pid      int    // payload identity: 0 = unique to the request, else shared by the copies of a session's base request
 }
 
 func drawCsPlan(t *simrt.Tape) csPlan {
@@ -339,17 +344,18 @@ func (s *csServer) key(slot int) int {
 }
 
 type csRec struct {
-	id       int
-	plan     csPlan
-	q        wire
-	plain    []byte // what the application wants the handler to receive
-	aesKey   []byte
-	respWant []byte
-	ran      int
-	th       time.Time
-	hbSeen   // what the handler read from the body
-	t0, t1   time.Time
-	status   int
+	id        int
+	plan      csPlan
+	q         wire
+	plain     []byte // what the application wants the handler to receive
+	aesKey    []byte
+	respWant  []byte
+	ran       int
+	th        time.Time
+	hbSeen    // what the handler read from the body
+	t0, t1    time.Time
+	status    int
+	signedLen int // length of the body the client signed, when the body as sent starts with it (else the length sent)
 }
 
 type csWorld struct {
@@ -360,6 +366,7 @@ type csWorld struct {
 	boundary bool
 	prefix   string // path prefix of the route group the requests are sent to (engine mode)
 	pfx      string // class prefix of the delivery checks ("engine-" in engine mode)
+	sessions []*csSession
 }
 
 // paths: the request paths of the workload (under the group prefix in engine mode).
@@ -376,7 +383,11 @@ func (w *csWorld) build(p csPlan, nowS int64) *csRec {
 	rec := &csRec{id: len(w.recs), plan: p}
 	w.recs = append(w.recs, rec)
 	tol := int64(w.srv.tolerance / time.Second)
-	rec.plain = payloadOf(p.pseed, rec.id, p.size)
+	pid := rec.id
+	if p.pid > 0 {
+		pid = p.pid - 1
+	}
+	rec.plain = payloadOf(p.pseed, pid, p.size)
 	rec.aesKey = (&prng{s: p.kseed}).bytes(p.keyLen)
 	rec.respWant = payloadOf(p.rseed, rec.id+1000, p.rsize)
 	if p.crypt && p.chunked {
@@ -407,6 +418,17 @@ func (w *csWorld) build(p csPlan, nowS int64) *csRec {
 	if p.tsCode == toExtreme {
 		tss = tsExtremes[p.tsX].f(nowS, tol)
 		w.r.Probe("cs-timestamp-extreme-" + tsExtremes[p.tsX].name)
+	}
+	var ss *csSession
+	if p.sess > 0 {
+		// the secret (and with it the timestamp) is the session's, made by its first member
+		ss = w.sessions[p.sess-1]
+		if ss.made {
+			ts, tss = ss.ts, ss.tss
+		} else {
+			ss.ts, ss.tss = ts, tss
+		}
+		w.r.Probe("cs-session-variant-" + svNames[p.variant])
 	}
 	fpKey := p.fp
 	if w.srv.fps[fpKey] == "" {
@@ -522,7 +544,21 @@ func (w *csWorld) build(p csPlan, nowS int64) *csRec {
 		}
 		sig = string(b)
 	}
-	secret := rsaEncryptB64(w.cache, encKey, inner)
+	var secret string
+	switch {
+	case ss != nil && ss.made:
+		secret = ss.secret
+		w.r.Probe("cs-session-secret-blob-reused")
+	default:
+		secret = rsaEncryptB64(w.cache, encKey, inner)
+		if ss != nil {
+			ss.secret, ss.made = secret, true
+		}
+	}
+	rec.signedLen = len(q.body)
+	if bytes.HasPrefix(q.body, signBody) {
+		rec.signedLen = len(signBody)
+	}
 	if p.kind == ckSecretCorrupt {
 		b := []byte(secret)
 		i := int(m.next() % uint64(len(b)-2))
@@ -561,6 +597,9 @@ func (w *csWorld) build(p csPlan, nowS int64) *csRec {
 func (q *wire) request(ctx context.Context) *http.Request {
 	var req *http.Request
 	switch {
+	case q.fault.active():
+		req = httptest.NewRequest(q.method, q.url(), nil)
+		q.faultyBody(req)
 	case q.chunked:
 		req = httptest.NewRequest(q.method, q.url(), io.NopCloser(&opaqueReader{bytes.NewReader(q.body)}))
 		req.ContentLength = -1
@@ -684,17 +723,51 @@ func contentSecurity(r *simrt.Run, tier string) {
 		nTasks = t.Range(2, 4)
 		r.Probe("cs-burst")
 	}
+	// session: 2-6 tasks whose requests carry the secret blob of one (or one of two) client sessions, issued at
+	// (almost) the same instant: copies of the session's base request, single-field forgeries of it, requests
+	// with other content under the same secret (fault_test.go)
+	session := t.Chance(1, 4)
+	var bases []csPlan
+	if session {
+		burst = false
+		nTasks = t.Range(2, 6)
+		perTask = t.Range(1, 2)
+		if tier == "thorough" {
+			perTask = t.Range(1, 3)
+		}
+		for s, n := 0, t.Range(1, 2); s < n; s++ {
+			bases = append(bases, drawSessionBase(t, s))
+			w.sessions = append(w.sessions, &csSession{})
+		}
+		r.Probe("cs-session")
+	}
 	plans := make([][]csPlan, nTasks)
 	for i := range plans {
 		for j := 0; j < perTask; j++ {
-			p := drawCsPlan(t)
+			var p csPlan
+			if session {
+				s := t.Intn(len(bases))
+				p = drawSessionMember(t, bases[s], s)
+			} else {
+				p = drawCsPlan(t)
+			}
 			if burst {
 				overlapCsPlan(t, &p)
 			}
+			p.bf = drawBf(t)
 			plans[i] = append(plans[i], p)
 		}
 	}
 	limitEncryptedChunked(t, plans)
+	for i := range plans {
+		for j := range plans[i] {
+			// an encrypted body of undeclared length ends in the known finding, which is recognised by what the
+			// handler read from the complete body: no read errors there
+			if p := &plans[i][j]; p.crypt && p.chunked && p.bf.err != bfNone {
+				p.bf.err, p.bf.tail = bfNone, 0
+			}
+		}
+	}
 	decs := map[string]codec.RsaDecrypter{}
 	for i, fp := range w.srv.fps {
 		if fp != "" {
@@ -718,7 +791,7 @@ func contentSecurity(r *simrt.Run, tier string) {
 	})
 	h := handler.ContentSecurityHandler(decs, w.srv.tolerance, w.srv.strict)(next)
 	r.Sample(map[string]any{"scenario": "handler.ContentSecurityHandler", "strict": w.srv.strict, "tolerance": w.srv.tolerance.String(),
-		"fingerprints": w.srv.fps, "burst": burst, "tasks": nTasks, "requests_per_task": perTask, "first_task_plan": fmt.Sprintf("%+v", plans[0])})
+		"fingerprints": w.srv.fps, "burst": burst, "session": session, "sessions": len(bases), "tasks": nTasks, "requests_per_task": perTask, "first_task_plan": fmt.Sprintf("%+v", plans[0])})
 	if r.Tracing() {
 		r.Logf("content-security server=%+v plans=%+v", w.srv, plans)
 	}
@@ -731,6 +804,7 @@ func contentSecurity(r *simrt.Run, tier string) {
 					r.Sleep(p.think)
 				}
 				rec := w.build(p, time.Now().Unix())
+				applyFault(r, &rec.q, p.bf, rec.signedLen)
 				if d, ok := deliveryDelay(p.delay, w.srv.tolerance); ok {
 					r.Sleep(d)
 					r.Probe("cs-delayed-delivery")
@@ -740,7 +814,9 @@ func contentSecurity(r *simrt.Run, tier string) {
 				rw := httptest.NewRecorder()
 				r.Ev("invoke", int64(rec.id), int64(p.kind))
 				rec.t0 = time.Now()
+				w.enter(rec)
 				h.ServeHTTP(rw, req)
+				w.leave(rec)
 				rec.t1 = time.Now()
 				rec.status = rw.Code
 				r.Ev("return", int64(rec.id), int64(rec.status), int64(rec.ran))
@@ -777,13 +853,24 @@ func writeChunks(rw http.ResponseWriter, b []byte, chunks int) {
 
 func (w *csWorld) describe(rec *csRec, v *csVerdict) string {
 	q := &rec.q
+	kind := ckNames[rec.plan.kind]
+	if rec.plan.sess > 0 {
+		kind = fmt.Sprintf("%s, member '%s' of session %d", kind, svNames[rec.plan.variant], rec.plan.sess-1)
+	}
+	if q.fault.active() {
+		kind += ", body reader: " + q.fault.plan.String()
+	}
 	return fmt.Sprintf("request %d (%s; %s %s body=%s X-Request-Uri=%q crypt=%v; verifier: reason=%q ts=%s tolerance=%v) sent %s returned %s",
-		rec.id, ckNames[rec.plan.kind], q.method, q.url(), short(q.body), q.reqURI, v.crypt, v.reason, tsText(v), w.srv.tolerance,
+		rec.id, kind, q.method, q.url(), short(q.body), q.reqURI, v.crypt, v.reason, tsText(v), w.srv.tolerance,
 		rec.t0.UTC().Format("2006-01-02T15:04:05.000000000"), rec.t1.UTC().Format("15:04:05.000000000"))
 }
 
 func (w *csWorld) checkCS(rec *csRec, rw *httptest.ResponseRecorder) {
 	r := w.r
+	if rec.q.fault.hasError() {
+		w.checkCSUnreadable(rec)
+		return
+	}
 	v := w.judge(&rec.q)
 	r.Probe("oracle")
 	if r.Tracing() {
@@ -862,6 +949,91 @@ func (w *csWorld) checkCS(rec *csRec, rw *httptest.ResponseRecorder) {
 	if mustRun {
 		w.checkDelivered(rec, rw, &v)
 	}
+}
+
+// checkCSUnreadable: the body reader reported an error at offset errOff (once, or for good).  Such a body cannot be
+// read the plain way, so nothing is owed: rejecting the request is fine.  If the protected handler RAN, the
+// signature must cover exactly the bytes the handler could read: the bytes up to the error (all a server that
+// stops at the error can have verified) or, for an error reported once, the complete body (a server that reads
+// on), and those bytes - decrypted when the request is an encrypted one - are what the handler read.
+func (w *csWorld) checkCSUnreadable(rec *csRec) {
+	r := w.r
+	q := &rec.q
+	full := w.judge(q)
+	r.Probe("oracle")
+	r.Probe("cs-body-read-error")
+	if r.Tracing() {
+		r.Logf("%s -> status %d ran %d; handler read %s err=%v", w.describe(rec, &full), rec.status, rec.ran, short(rec.gotBody), rec.readErr)
+	}
+	if rec.ran > 1 {
+		r.Fail("cs-handler-ran-twice", "%s: protected handler ran %d times", w.describe(rec, &full), rec.ran)
+		return
+	}
+	if !w.srv.strict {
+		r.Probe("cs-non-strict")
+		return
+	}
+	if rec.ran == 0 {
+		if rec.status < 400 {
+			r.Fail("cs-strict-reject-status", "%s: handler not called but status is %d", w.describe(rec, &full), rec.status)
+			return
+		}
+		r.Probe("cs-body-read-error-rejected")
+		return
+	}
+	// the bodies a server can have verified
+	cands := [][]byte{q.body[:q.fault.errOff]}
+	if q.fault.transient() && q.fault.errOff < len(q.body) {
+		cands = append(cands, q.body)
+	}
+	covered := false
+	reason := ""
+	for i, c := range cands {
+		qq := *q
+		qq.body = c
+		v := w.judge(&qq)
+		if i == 0 || reason == "" {
+			reason = v.reason
+		}
+		if v.reason != "" {
+			continue
+		}
+		if may, _, _ := tsJudge(v.ts, v.tsOpen, w.srv.tolerance, rec.t0, rec.th, rec.t1); !may {
+			reason = "outside-tolerance"
+			continue
+		}
+		covered = true
+		if rec.closedFirst {
+			r.Probe("handler-read-after-own-close")
+			return
+		}
+		want := c
+		if v.crypt && len(c) > 0 && !q.chunked {
+			dec, ok := clientDecrypt(v.key, c)
+			if !ok {
+				continue // nothing the handler could properly be given
+			}
+			want = dec
+		}
+		exp := rec.expectRead(want)
+		if bytes.Equal(rec.gotBody, exp) || (rec.readErr != nil && bytes.HasPrefix(exp, rec.gotBody)) {
+			r.Probe("cs-body-read-error-handler-ran-on-verified-bytes")
+			if len(c) < len(q.body) {
+				r.Probe("cs-body-read-error-handler-ran-on-verified-prefix")
+			}
+			return
+		}
+	}
+	if !covered {
+		if reason == "" {
+			reason = "outside-tolerance"
+		}
+		r.Fail("cs-strict-accepted-"+reason, "%s: the body reader reported a read error at offset %d of %d; the protected handler RAN although the signature covers neither the bytes before the error nor the body as a whole",
+			w.describe(rec, &full), q.fault.errOff, len(q.body))
+		return
+	}
+	r.Fail("cs-strict-handler-read-bytes-not-covered-by-signature", "%s: the body reader reported a read error at offset %d of %d; the signature covers %s, but the protected handler (%s) RAN and read %s (read error: %v): bytes no verified signature covers",
+		w.describe(rec, &full), q.fault.errOff, len(q.body), short(cands[0]), rec.plan.hb, short(rec.gotBody), rec.readErr)
 }
 
 func (w *csWorld) finding(class, format string, a ...any) { finding(w.r, class, format, a...) }
@@ -1001,6 +1173,7 @@ func cryption(r *simrt.Run, tier string) {
 		think        time.Duration
 		chunked      bool
 		hb           hbPlan
+		bf           bfPlan
 	}
 	plans := make([][]plan, nTasks)
 	for i := range plans {
@@ -1013,6 +1186,8 @@ func cryption(r *simrt.Run, tier string) {
 				overlapCsPlan(t, &cp)
 				p.think, p.hb, p.size = cp.think, cp.hb, cp.size
 			}
+			p.bf = drawBf(t)
+			p.bf.tail = 0 // nothing is signed here
 			plans[i] = append(plans[i], p)
 		}
 	}
@@ -1020,6 +1195,15 @@ func cryption(r *simrt.Run, tier string) {
 		for i := range plans {
 			for j := range plans[i] {
 				plans[i][j].chunked = false
+			}
+		}
+	}
+	for i := range plans {
+		for j := range plans[i] {
+			// a body of undeclared length is passed through to the handler as it is (known finding): no read errors there
+			// (so is a request without body: there is nothing to decrypt)
+			if p := &plans[i][j]; p.chunked || (p.size == 0 && !p.encEmpty) {
+				p.bf.err = bfNone
 			}
 		}
 	}
@@ -1065,6 +1249,7 @@ func cryption(r *simrt.Run, tier string) {
 				if len(rec.plain) > 0 || p.encEmpty {
 					rec.q.body = []byte(std64.EncodeToString(ecbEncrypt(key, rec.plain)))
 				}
+				applyFault(r, &rec.q, p.bf, len(rec.q.body))
 				req := rec.q.request(context.WithValue(context.Background(), reqKey{}, rec))
 				rw := httptest.NewRecorder()
 				r.Ev("invoke", int64(rec.id), int64(len(rec.q.body)))
@@ -1073,7 +1258,7 @@ func cryption(r *simrt.Run, tier string) {
 				rec.t1 = time.Now()
 				r.Ev("return", int64(rec.id), int64(rw.Code), int64(rec.ran))
 				r.Probe("oracle")
-				desc := fmt.Sprintf("request %d (payload %s -> body %s, limit %d, in flight %s .. %s)", rec.id, short(rec.plain), short(rec.q.body), limit, stamp(rec.t0), stamp(rec.t1))
+				desc := fmt.Sprintf("request %d (payload %s -> body %s, body reader: %s, limit %d, in flight %s .. %s)", rec.id, short(rec.plain), short(rec.q.body), p.bf, limit, stamp(rec.t0), stamp(rec.t1))
 				if r.Tracing() {
 					r.Logf("%s: handler %s; ran=%d status=%d read %s", desc, rec.plan.hb, rec.ran, rw.Code, short(rec.gotBody))
 				}
@@ -1088,6 +1273,12 @@ func cryption(r *simrt.Run, tier string) {
 				if rec.ran == 0 {
 					if over {
 						continue // nothing stated about bodies above the configured limit
+					}
+					if rec.q.fault.hasError() {
+						// the body could not be read the plain way: rejecting is fine (if the handler runs it must
+						// have got the complete payload, see below)
+						r.Probe("crypt-body-read-error-rejected")
+						continue
 					}
 					if len(rec.plain) == 0 && len(rec.q.body) > 0 {
 						w.finding("crypt-roundtrip-empty-payload", "%s: body is the AES-ECB/PKCS#7 encryption of the EMPTY payload; CryptionHandler answered %d and the handler was not called (round trip of the empty payload fails)", desc, rw.Code)
